@@ -37,40 +37,10 @@ def unsum(e):
                      str(x.func) == 'SUM', lambda x: x.args[0])
 
 
-def rule_N1(ctx):
-    sm = ctx.repo.mod(SURV)
-    g = [m for m in sm.methods('Survey', 'standard_deviation')
-         if 'property' in au.decorator_names(m)]
-    ctx.anchor(len(g) == 1, 'Survey.standard_deviation getter')
-    nf, re_ = sp.symbols('nf re', positive=True)
-    d = sp.Symbol('d')
-    env = {'self.noise_floor': nf, 'self.relative_error': re_,
-           'self.data.observed': d}
-    lf = Lifter(env, {'self.data.observed.copy': lambda *a: sp.Integer(0)},
-                sm.rel, strict=False)
-    paths = straight_paths(au.body_nodoc(g[0]), lf)
-    seen = 0
-    for p in paths:
-        if p.returned is None or p.returned[0] != 'value':
-            continue
-        stored = p.holds("'standard_deviation' in self._data.keys()")
-        if stored:
-            continue
-        has_nf = p.holds('self.noise_floor is not None')
-        has_re = p.holds('self.relative_error is not None')
-        if has_nf is None or has_re is None:
-            continue
-        want = sp.sqrt((nf**2 if has_nf else 0) +
-                       (sp.Abs(re_ * d)**2 if has_re else 0))
-        seen += 1
-        ctx.check('C13.N1.std', f'standard_deviation (noise_floor '
-                  f'{"set" if has_nf else "None"}, relative_error '
-                  f'{"set" if has_re else "None"})',
-                  equal(p.returned[1], want),
-                  f'standard deviation is `{p.returned[1]}`, documented '
-                  f'`{want}`', ctx.where(sm, g[0]),
-                  sample={'lifted': str(p.returned[1]), 'want': str(want)})
-    ctx.need(seen >= 3, 'standard_deviation: computed paths not found')
+
+def misfit_formula(ctx):
+    """Simulation.misfit, lifted path by path (shared with C07: the gradient
+    is the derivative of THIS value)."""
     # misfit
     mm = ctx.repo.mod(SIMS)
     mf = [m for m in mm.methods('Simulation', 'misfit')
@@ -118,6 +88,46 @@ def rule_N1(ctx):
                       f'stored residual is `{res}`, must be synthetic - '
                       'observed', ctx.where(mm, mf[0]))
     ctx.need(ok_paths >= 1, 'misfit: no path computing weights and misfit')
+
+
+def rule_N1(ctx):
+    sm = ctx.repo.mod(SURV)
+    g = [m for m in sm.methods('Survey', 'standard_deviation')
+         if 'property' in au.decorator_names(m)]
+    ctx.anchor(len(g) == 1, 'Survey.standard_deviation getter')
+    nf, re_ = sp.symbols('nf re', positive=True)
+    d = sp.Symbol('d')
+    env = {'self.noise_floor': nf, 'self.relative_error': re_,
+           'self.data.observed': d}
+    lf = Lifter(env, {'self.data.observed.copy': lambda *a: sp.Integer(0)},
+                sm.rel, strict=False)
+    paths = straight_paths(au.body_nodoc(g[0]), lf)
+    seen = 0
+    for p in paths:
+        if p.returned is None or p.returned[0] != 'value':
+            continue
+        stored = p.holds("'standard_deviation' in self._data.keys()")
+        if stored:
+            continue
+        has_nf = p.holds('self.noise_floor is not None')
+        has_re = p.holds('self.relative_error is not None')
+        if has_nf is None or has_re is None:
+            continue
+        want = sp.sqrt((nf**2 if has_nf else 0) +
+                       (sp.Abs(re_ * d)**2 if has_re else 0))
+        seen += 1
+        ctx.check('C13.N1.std', f'standard_deviation (noise_floor '
+                  f'{"set" if has_nf else "None"}, relative_error '
+                  f'{"set" if has_re else "None"})',
+                  equal(p.returned[1], want),
+                  f'standard deviation is `{p.returned[1]}`, documented '
+                  f'`{want}`', ctx.where(sm, g[0]),
+                  sample={'lifted': str(p.returned[1]), 'want': str(want)})
+    ctx.need(seen >= 3, 'standard_deviation: computed paths not found')
+    misfit_formula(ctx)
+    mm = ctx.repo.mod(SIMS)
+    std = sp.Symbol('std', positive=True)
+    s, o = sp.symbols('s o')
     # layered twins
     mp = ctx.repo.mod(MP)
     for fname in ('layered', '_fd_gradient'):
@@ -629,6 +639,10 @@ def run(ctx):
     from . import c12
     sm = ctx.repo.mod(SIMS)
     E = c12.Effects(ctx, sm)
+    # a plain copy / file of a simulation keeps the noise model of its
+    # survey (explicit standard deviation and array-valued noise settings
+    # are data sets of the survey)
+    c12.plain_strip(ctx, sm, E.members['to_dict'], 'C13.N4.copy')
     from ..core.cfg import CFG
     n = 0
     for name, fn in sorted(E.members.items()):
